@@ -126,6 +126,13 @@ def gen_cases(rng, tier):
     for i in range(n["sympoly"]):
         a, b, meta = nb.symmetric_polytope_pair(rng)
         cases.append(dict(c1=a, c2=b, meta=meta))
+    # a quarter of the pairs: one or both colliders are brought to their placement by update_pose
+    # (a moved collider must not raise or hang where a freshly built one does not; seeded C19-5)
+    for c in cases:
+        if not c.get("same_object") and rng.random() < 0.25:
+            for key in rng.choice([("c1",), ("c2",), ("c1", "c2")]):
+                c[key] = dict(c[key], via_update=True)
+            c["meta"] = dict(c["meta"], via_update=True)
     for c in cases:
         c["ops"] = ops_for(c["c1"], c["c2"], c.get("same_object", False))
     # small BVHs for self-collision detection
